@@ -190,6 +190,34 @@ DeleteSchema ==
   /\ Guard /\ schema # None
   /\ Apply([op |-> "rmschema", evs |-> <<>>], tree, None, << Ev("remove", "schema") >>)
 
+\* ---- two edits inside one debounce window (event lists as the real debouncer delivers them; checked by h_notify) ----
+RenameThenEdit(c) ==      \* mv x.ts z.ts + edit of z.ts (in either order): the rename comes first, then a modify of the target
+  /\ Guard /\ Exists(tree, F1) /\ ~Exists(tree, F6) /\ c # "bin"
+  /\ Apply([op |-> "batch", edits |-> << [op |-> "rename", p |-> F1, q |-> F6], [op |-> "write", p |-> F6, c |-> c] >>, evs |-> <<>>],
+           [tree EXCEPT ![F6] = c, ![F1] = None], schema,
+           << [k |-> "rename", p |-> F1, q |-> F6], Ev("modify", F6) >>)
+
+DeleteRecreate(f, c) ==   \* rm f + re-creation of f: remove, create, modify
+  /\ Guard /\ Exists(tree, f) /\ c # "bin"
+  /\ Apply([op |-> "batch", edits |-> << [op |-> "delete", p |-> f], [op |-> "write", p |-> f, c |-> c] >>, evs |-> <<>>],
+           [tree EXCEPT ![f] = c], schema, << Ev("remove", f), Ev("create", f), Ev("modify", f) >>)
+
+TwoWrites(f, g, c) ==     \* two files saved within the window
+  /\ Guard /\ f # g /\ c # "bin" /\ tree[f] # c /\ tree[g] # c
+  /\ (\A h \in {f, g} : h \in InFolder(Dc) => FolderExists(tree, Dc))
+  /\ Apply([op |-> "batch", edits |-> << [op |-> "write", p |-> f, c |-> c], [op |-> "write", p |-> g, c |-> c] >>, evs |-> <<>>],
+           [tree EXCEPT ![f] = c, ![g] = c], schema,
+           << Ev(IF Exists(tree, f) THEN "modify" ELSE "create", f), Ev(IF Exists(tree, g) THEN "modify" ELSE "create", g) >>)
+
+MvDirThenEdit(c) ==       \* mv src/a src/c + edit of src/c/x.ts: the modify is reported under the OLD path (inotify watch of the moved dir)
+  /\ Guard /\ Exists(tree, F1) /\ ~FolderExists(tree, Dc) /\ c # "bin"
+  /\ Apply([op |-> "batch", edits |-> << [op |-> "mvdir", p |-> Da, q |-> Dc], [op |-> "write", p |-> C1, c |-> c] >>, evs |-> <<>>],
+           [f \in FilePaths |-> IF f \in InFolder(Da) THEN None
+                                ELSE IF f = C1 THEN c
+                                ELSE IF f \in InFolder(Dc) THEN tree[CHOOSE g \in InFolder(Da) : MoveToC(g) = f]
+                                ELSE tree[f]],
+           schema, << [k |-> "rename", p |-> Da, q |-> Dc], Ev("modify", F1) >>)
+
 Gc ==     \* a garbage collection between two batches changes nothing observable
   /\ Guard /\ Len(hist) > 0 /\ hist[Len(hist)].op # "gc"
   /\ Apply([op |-> "gc", evs |-> <<>>], tree, schema, <<>>)
@@ -199,6 +227,9 @@ Next ==
   \/ \E f \in {F1, F2, F3, F4, F5}, c \in Contents : WriteFile(f, c)
   \/ \E f \in {F1, F2, F3, F5} : DeleteFile(f)
   \/ RenameFile \/ RenameMd \/ RenameFolder
+  \/ \E c \in {"v1", "v2"} : RenameThenEdit(c) \/ MvDirThenEdit(c)
+  \/ \E f \in {F1, F3}, c \in {"v2"} : DeleteRecreate(f, c)
+  \/ \E f \in {F1}, g \in {F3, F2}, c \in {"v2"} : TwoWrites(f, g, c)
   \/ \E d \in {Da, Dab} : DeleteFolder(d)
   \/ \E s \in {"s1", "s2"} : EditSchema(s)
   \/ DeleteSchema
